@@ -384,8 +384,13 @@ def fmt_text(site):
 
 def _slot_of_pat(pat, hid):
     p = pat
-    while p.get('k') in ('PRef', 'PDeref'):
-        p = p['p']
+    while True:
+        if p.get('k') in ('PRef', 'PDeref'):
+            p = p['p']
+        elif p.get('k') == 'PTS' and len(p.get('subs', [])) == 1 and (p.get('def') or '').split('::')[-1] in ('Some', 'Ok', 'Err'):
+            p = p['subs'][0]
+        else:
+            break
     if p.get('k') != 'PTup':
         return None
     for i, s in enumerate(p['subs']):
